@@ -6,7 +6,7 @@ HARNESSES = wc.HARNESSES
 LEVEL_WITHOUT_PROOF = "other"
 
 CFG = dict(
-    mix=dict(create=3, assign=2, remove=2, sassign=4, sremove=2, build=2, destroynow=1, clone=1, dump=1),
+    mix=dict(create=3, assign=2, remove=2, sassign=4, sremove=2, build=2, destroynow=1, clone=1, dump=1, clear=0.3, createin=1),
     corpus=[x for x in "C12".split(",")],
     n_quick=500, n_thorough=6000, len=(8, 45),
     gen=dict(lock_bias=0.0, shared=True),
